@@ -12,6 +12,7 @@ import subprocess
 
 import c04_lib as L
 import c04_run as R
+import c04_tamper as T
 
 SYSCALLS = [("write", 400), ("fdatasync", 60), ("fsync", 40), ("rename", 60), ("linkat", 40), ("unlink", 40)]
 
@@ -59,13 +60,64 @@ def run_session(exe, root, opts, ops, strace=None):
         cmd = ["strace", "-f", "-o", "/dev/null", "-e", "trace=" + name, "-e", "inject=%s:signal=SIGKILL:when=%d" % (name, when)] + cmd
     # a session can stop answering (after a panic of the selector, C01's K2, the next flush waits on
     # a poisoned mutex): that is an observation, the books on disk are inspected all the same
+    # own process group: on a timeout strace AND the store it traces are killed (a surviving store
+    # would go on changing the directory under the inspection)
+    p = subprocess.Popen(cmd, stdin=subprocess.PIPE, stdout=subprocess.PIPE, stderr=subprocess.DEVNULL, start_new_session=True)
     try:
-        p = subprocess.run(cmd, input=("\n".join(ops) + "\n").encode(), stdout=subprocess.PIPE, stderr=subprocess.DEVNULL, timeout=40)
-        out, rc = p.stdout, p.returncode
-    except subprocess.TimeoutExpired as ex:
-        out, rc = (ex.stdout or b"") + b"\nHANG\n", -99
+        out, _ = p.communicate(("\n".join(ops) + "\n").encode(), timeout=40)
+        rc = p.returncode
+    except subprocess.TimeoutExpired:
+        try:
+            os.killpg(p.pid, 9)
+        except OSError:
+            pass
+        out, _ = p.communicate()
+        out, rc = (out or b"") + b"\nHANG\n", -99
     out = out.decode("utf-8", "replace").split("\n")
     return rc, [ln for ln in out if ln]
+
+
+def torn_append_cases(exe, root, opts, stats, where):
+    """a torn append: the live MANIFEST cut at every LINE boundary inside its last transaction (the
+    separator and any number of the transaction's lines missing).  What the real ManifestIterator
+    then yields must be a balanced state (an unseparated tail is an edit that did not happen: the
+    manifest must not list an sst whose setsum is not in O), and the store must open on it."""
+    problems = []
+    path = os.path.join(root, "mani", "MANIFEST")
+    edits, tail = T.split_edits(open(path, "rb").read())
+    if len(edits) < 2 or tail:
+        stats["torn_skipped"] = stats.get("torn_skipped", 0) + 1
+        return problems
+    last = edits[-1]
+    if any(T.line_body(ln).startswith("-") for ln in last):
+        # the inputs of a committed compaction are in the trash already: cutting its edit off a
+        # quiescent directory is not a state a torn append can leave
+        stats["torn_skipped"] = stats.get("torn_skipped", 0) + 1
+        return problems
+    prefix = T.join_edits(edits[:-1])
+    for k in range(1, len(last) + 1):
+        cp = root + ".torn"
+        shutil.rmtree(cp, ignore_errors=True)
+        shutil.copytree(root, cp)
+        obs = None
+        try:
+            with open(os.path.join(cp, "mani", "MANIFEST"), "wb") as fh:
+                fh.write(prefix + b"".join(last[:k]))
+            stats["torn_cases"] = stats.get("torn_cases", 0) + 1
+            w = "torn append (%d of %d lines of the last transaction, no separator) %s" % (k, len(last), where)
+            obs = Obs(exe, cp)
+            obs.sync(w, full=True)
+            rc, out = run_session(exe, cp, opts, ["state"])
+            if not out or out[0] != "OPEN ok":
+                obs.problem("property", what="the store does not open on a manifest with a torn last append", open_line=(out or ["?"])[0], where=w)
+            else:
+                obs.sync("reopen after " + w, full=True)
+            problems += obs.problems
+        finally:
+            if obs:
+                obs.tool.close()
+            shutil.rmtree(cp, ignore_errors=True)
+    return problems
 
 
 def count_syscalls(exe, root, opts, ops):
@@ -75,9 +127,15 @@ def count_syscalls(exe, root, opts, ops):
     cfile = root + ".strace"
     try:
         cmd = ["strace", "-f", "-c", "-o", cfile, "-e", "trace=" + ",".join(n for n, _ in SYSCALLS), exe, "session", cp] + opts
+        p = subprocess.Popen(cmd, stdin=subprocess.PIPE, stdout=subprocess.DEVNULL, stderr=subprocess.DEVNULL, start_new_session=True)
         try:
-            subprocess.run(cmd, input=("\n".join(ops) + "\n").encode(), stdout=subprocess.DEVNULL, stderr=subprocess.DEVNULL, timeout=40)
+            p.communicate(("\n".join(ops) + "\n").encode(), timeout=40)
         except subprocess.TimeoutExpired:
+            try:
+                os.killpg(p.pid, 9)
+            except OSError:
+                pass
+            p.communicate()
             return None
         counts = {}
         if not os.path.exists(cfile):
@@ -151,6 +209,11 @@ def crash_case(exe, opts, seed, tag):
             if bad:
                 obs.problem("property", what="the session after the crash reported an error or panicked", out=bad[:4], where=where)
             obs.sync("reopen " + where, full=True)
+            # a flush, then its edit torn off the manifest line by line
+            rc2, out2 = run_session(exe, root, opts, ["put 7b 01", "flush"])
+            if out2 and out2[0] == "OPEN ok" and rc2 == 0:
+                obs.problems += torn_append_cases(exe, root, opts, stats, where)
+                obs.sync("after the torn-append copies " + where, full=True)
             # two more sessions, then the verifier
             run_session(exe, root, opts, ["state"])
             run_session(exe, root, opts, ["state"])
@@ -178,7 +241,8 @@ def _job(args):
     try:
         return crash_case(*args)
     except Exception as ex:
-        return [{"kind": "machinery", "what": "exception in the crash campaign: %r" % (ex,)}], {}
+        import traceback
+        return [{"kind": "machinery", "what": "exception in the crash campaign: %r" % (ex,), "traceback": traceback.format_exc()[-1500:]}], {}
 
 
 def run_many(jobs, ncpu):
